@@ -523,14 +523,9 @@ def run(ctx):
         ctx.ob('C10.model-never-fetched', 'plan_join_tables:process_table', ok,
                'plan_join_tables calls process_table (which builds a fetch from an integration) on a path where the item may be a model',
                file=PJ, line=c.lineno)
-    psi = units.get('QueryPlanner.plan_select_identifier')
-    ctx.need(psi is not None, 'plan_select_identifier not found')
-    for c in [n for n in walk_no_nested(psi.fn) if isinstance(n, ast.Call) and norm(n.func) in ('self.plan_integration_select', 'self.plan_api_db_select',
-                                                                                           'self.plan_integration_select_with_functions')]:
-        gs = guards_of(c, psi.fn)
-        ok = any(not pol and "['predictors']" in norm(t) for t, pol in gs)
-        ctx.ob('C10.model-never-fetched', f'plan_select_identifier:{norm(c.func)}', ok,
-               f'plan_select_identifier reaches {norm(c.func)} without having excluded a predictor in FROM', file=QP, line=c.lineno)
+    for label, ok, msg, line in select_route_table(ctx):
+        ctx.ob('C10.model-never-fetched', f'plan_select_identifier:{label}', ok, msg, file=QP, line=line,
+               witness='with a as (select * from int1.t), b as (select * from a join mindsdb.pred) select * from a')
     # F. version kept: get_predictor's answer is in the model-resolution table below; the identifier the apply steps use is interpreted here -------------
     for label, ok, msg, line in model_identifier_table(ctx):
         ctx.ob('C10.version-kept', label, ok, msg, file=QP, line=line, witness='select * from mindsdb.pred.3 where x = 1')
@@ -613,6 +608,48 @@ def model_resolution_table(ctx):
                     f'[{label}] get_predictor answers {got}, expected {want}: a name is a model exactly when its qualifier (the default namespace for a bare name) plus '
                     f'name is in the model catalog, the version suffix is kept, names of tables inside a database (database.schema.table) are tables, and the catalog is '
                     f'not modified', gp.lineno))
+    return out
+
+
+def select_route_table(ctx):
+    """QueryPlanner.plan_select_identifier interpreted (sa/interp.py) on the facts it decides from: is the FROM table a model x which model references the
+    query-wide classification reports (none / the FROM table / one inside a CTE body, which plan_cte has already planned) x user function x api database.
+    The model route is taken exactly when the FROM table is a model; a table is never handed to the model planner (which would crash on it) and a model is
+    never fetched from an integration.  -> [(label, ok, message, line)]"""
+    import itertools
+    from ..interp import Interp, Obj, Raised, Env
+    qp = class_named(ctx.src.tree(QP), 'QueryPlanner')
+    psi = function_named(qp, 'plan_select_identifier')
+    ctx.need(psi is not None, 'plan_select_identifier not found')
+    out = []
+    routes = ('plan_select_from_predictor', 'plan_api_db_select', 'plan_integration_select_with_functions', 'plan_integration_select')
+    for from_is_model, elsewhere, udf, api in itertools.product((False, True), (False, True), (False, True), (False, True)):
+        if from_is_model and api:
+            continue
+        frm = Obj('Identifier', parts=['mindsdb', 'pred'] if from_is_model else ['int1', 't'], alias=None)
+        other = Obj('Identifier', parts=['mindsdb', 'pred2'], alias=None)
+        query = Obj('Select', from_table=frm, targets=[Obj('Star')], where=None, cte=None)
+        taken = []
+        stubs = {'query_traversal': lambda it, node, cb, **k: None,
+                 'self.resolve_database_table': lambda it, n: (('mindsdb' if from_is_model else 'int1'), n),
+                 'self.get_nested_selects_plan_fnc': lambda it, *a, **k: (lambda *a2, **k2: None),
+                 'self.get_query_info': lambda it, q: {'mdb_entities': [], 'integrations': {'int1'}, 'user_functions': [Obj('Function')] if udf else [],
+                                                       'predictors': ([frm] if from_is_model else []) + ([other] if elsewhere else [])},
+                 'self.is_predictor': lambda it, n: n is frm and from_is_model,
+                 'self.get_predictor': lambda it, n: ({'name': 'pred'} if (n is frm and from_is_model) else None)}
+        for r_ in routes:
+            stubs[f'self.{r_}'] = (lambda r2: (lambda it, *a, **k: (taken.append(r2), Obj('Step'))[1]))(r_)
+        it = Interp.for_file(ctx.src, QP, {'Identifier': set(), 'Select': set()}, stubs)
+        self_ = Obj('QueryPlanner', integrations={'int1': ({'class_type': 'api'} if api else {})}, default_namespace='mindsdb')
+        label = f'FROM is {"a model" if from_is_model else "a table"}, {"a model inside a CTE body, " if elsewhere else ""}{"user function, " if udf else ""}{"api database" if api else "sql database"}'
+        try:
+            it.call_function(psi, [self_, query], {}, Env())
+        except Raised as r:
+            taken.append(f'raises {r.exc_name}')
+        want_model = from_is_model
+        ok = len(taken) == 1 and ((taken[0] == 'plan_select_from_predictor') == want_model) and not taken[0].startswith('raises')
+        out.append((label, ok, f'[{label}] plan_select_identifier takes {taken}: the model planner is for a select FROM a model and nothing else - a table handed to it has no '
+                               f'model record (internal TypeError), a model handed to an integration planner is fetched as a table', psi.lineno))
     return out
 
 
